@@ -37,6 +37,21 @@ theorem register_dup_frame (l : Bool) (s : State) (a n : Nat)
   simp only [step] at h ⊢
   by_cases hf : fresh s a = true <;> by_cases hw : (whereIs s n).isSome = true <;> simp_all
 
+/-- … and it has no side effect on the pid table's listeners either: no `PidLifecycleEvent`
+(`Spawn`/`Terminate`) is broadcast for the rejected cell (cluster builds). -/
+theorem register_dup_no_pid_events (l : Bool) (s : State) (a n : Nat)
+    (h : (step l s (.register a n)).2 ≠ .ok) : pidEvents s (.register a n) = [] := by
+  simp only [step] at h
+  simp only [pidEvents]
+  by_cases hf : fresh s a = true <;> by_cases hw : (whereIs s n).isSome = true <;>
+    simp_all [Option.isSome_iff_ne_none]
+
+/-- Every pid lifecycle event ever broadcast, in any run, concerns a local actor that was really
+created (registered successfully or unnamed) — never a rejected cell, never a remote proxy. -/
+theorem pid_events_sound (l : Bool) (ops : List Op) (e : Bool × Nat) (he : e ∈ runEvents l init ops) :
+    ∃ x ∈ (run l init ops).actors, x.id = e.2 ∧ x.remote = false :=
+  runEvents_actor l ops init e he
+
 /-- (i) Of any set of same-name registrations racing between two exits (no unregister step in
 the segment) at most one succeeds, and none if the name was taken at the start — for every
 start state, any number of threads and every interleaving. -/
@@ -216,6 +231,8 @@ end C10
 #print axioms C10.ok_reachable
 #print axioms C10.register_ok_iff_vacant
 #print axioms C10.register_dup_frame
+#print axioms C10.register_dup_no_pid_events
+#print axioms C10.pid_events_sound
 #print axioms C10.at_most_one_winner
 #print axioms C10.exactly_one_winner
 #print axioms C10.whereIs_sound
